@@ -60,3 +60,13 @@ claim('C10', 'Lean 4 theorems on the ordered-map insert/drain model with key sha
       "is run on the shipped sample (out of order) and on copies with patched header timestamps (ties, disorder), plain and in every container, against an independent dump.",
       TB + "The evtx crate's parsing is trusted (shared by s4 and the dump); XML rendering not modelled.",
       "DESIGN.md §6 C10")
+
+claim('C16', 'Lean 4 theorems on a hand model of pathbuf_to_filetype_impl over tables regenerated from the source; in-process differential correspondence of path_to_filetype; metamorphic oracle',
+      "Machine-checked for every byte string: classification terminates (fuel |name|+1 always suffices; each recursion strictly shortens the name), a named file is never "
+      "Unparsable and a kept walked file gets the same type as when named, numeric/unrecognised trailing components are skipped, one compression suffix sets the container and "
+      "keeps the type (the inner of two wins), letter case never matters, trailing junk (UTF-8 names) and leading junk (other than the proved corner) never matter, the first "
+      "recognised type word from the right decides, unrecognised names are text. Two corners are proved FALSE with witnesses and recorded (F13, F14). Tables are re-read from "
+      "filepreprocessor.rs every run (table facts re-decided over the whole table); the model's control flow is tied by in-process runs of path_to_filetype (exhaustive short "
+      "names over a 5-symbol alphabet incl. non-UTF-8, plus a name grammar) and a metamorphic oracle on the implementation.",
+      TB + "Rust std Path::{file_name,extension,with_extension,with_file_name}, OsStr::to_str, str::{trim_*,to_ascii_lowercase} are modelled by hand on the final path component.",
+      "DESIGN.md §6 C16")
